@@ -24,6 +24,40 @@ A_MODIFY = 'Store::modify(f) runs f exactly once on the tables of the current wr
 A_EXTRACT = 'redb extract_from_if followed by Iterator::count is modelled by a prophecy on the table view resolved by count(); storage errors in the middle of that iteration are not modelled'
 
 PROPS = {
+    'C07': {
+        'vx': ['U-cap-merge', 'U-cap-import'],
+        'kx': [],
+        'assumptions': [A_REDB, A_MODIFY, 'A-crypto-2: NamespaceSecret is opaque; id(), to_bytes/from_bytes are uninterpreted with to_bytes/from_bytes mutually inverse',
+                        'num_enum conversions of CapabilityKind: 1 = Write, 2 = Read, anything else an error (derive output not examined)',
+                        'the error value produced by `?` conversions is unspecified in Verus, so "Err(NotFound) only if no row" for load_replica_info is not decided (the other direction is)'],
+        'not_covered': ['Action::ImportNamespace arm of Actor::on_action (spawn_local, iterator chains, async closures)', 'Replica::insert / delete_prefix gating: see unit U-valid-insert when registered'],
+        'explanation': 'Capability::merge only upgrades and never replaces a write capability; raw/from_raw are inverse; import_namespace stores exactly the merge and touches no other row or table; load/close maintain the open set.',
+    },
+    'C09': {
+        'vx': ['U-codec-frame', 'U-cap-merge'],
+        'kx': [],
+        'assumptions': ['A-postcard: postcard::from_bytes / to_slice / serialized size are uninterpreted total functions; serde-derive code is not examined',
+                        'BytesMut is an abstract growable byte buffer (len, advance, put_u32, resize, range indexing) with len <= isize::MAX'],
+        'not_covered': ['round trip of Message/SignedEntry/tickets/heads through serde-derive and postcard, pinned hex snapshots, FilterKind Display/FromStr (macro generated / string code)'],
+        'explanation': 'Framing: decode never panics, reports short input as need-more-data and oversized frames as errors, consumes exactly one frame; encode appends exactly one frame; chunking lemmas; capability raw round trip.',
+    },
+    'C10': {
+        'vx': ['U-codec-bob', 'U-codec-alice', 'U-codec-conn'],
+        'kx': [],
+        'assumptions': ['streams are arbitrary frame sequences (FramedRead::next returns any frame or error, FramedWrite::send any result); SyncHandle::sync_process_message returns arbitrary Ok/Err and logs its calls in a ghost log',
+                        'tracing spans / Instrument are identity shells; termination of stream-driven loops is not claimed (exec_allows_no_decreases_clause)',
+                        'iroh Connection / SendStream / RecvStream / Metrics are opaque shells'],
+        'not_covered': ['"never wait forever" (liveness over real streams)', 'actor stopping mid-session (channel semantics)', 'mirrored sent/received counters (C01)'],
+        'explanation': 'Acceptor state machine (BobState::run/into_outcome), initiator loop (run_alice) and handle_connection on the real text: no unwrap on an empty slot on any path, decline changes nothing, protocol violations are errors, the outcome can always be reported.',
+    },
+    'C15': {
+        'vx': ['U-policy-store', 'U-policy-match'],
+        'kx': [],
+        'assumptions': [A_REDB, A_MODIFY, A_BYTES, 'A-postcard: pc_dec(pc_enc(p)) == Some(p) for download policies',
+                        'Iterator::any / all on slice::Iter are assumed to be exists / forall over the remaining elements via the closure ensures'],
+        'not_covered': ['filters survive their textual form (Display/FromStr: string code)', 'persistence across reopen (redb durability)'],
+        'explanation': 'set_download_policy only for existing documents and writes exactly one row; get returns the decoded row or the default; get-after-set round trip; DownloadPolicy::matches / FilterKind::matches equal the stated rule.',
+    },
     'C02': {
         'vx': ['U-store', 'U-bounds'],
         'kx': [KX['U-incr32'], KX['U-incr-var']],
@@ -34,10 +68,12 @@ PROPS = {
         'explanation': 'ranger::Store::put on the real text equals its specification (admission test against every prefix entry incl. the empty key and deletion markers, exact pruning set, exact count, frame), proved modularly over the verified contracts of parents / remove_prefix_filtered / entry_put / range bounds.',
     },
     'C08': {
-        'vx': ['U-store', 'U-bounds'],
+        'vx': ['U-store', 'U-bounds', 'U-first', 'U-range'],
         'kx': [KX['U-incr32'], KX['U-incr-var']],
         'assumptions': [A_REDB, A_INCR, A_BYTES, A_ENTRY, A_MODIFY, A_EXTRACT],
-        'not_covered': ['transcript equality of whole sessions across backends (relational over process_message, see C01)', 'get_first / get_range / get_fingerprint (pending)'],
+        'not_covered': ['transcript equality of whole sessions across backends (relational over process_message, see C01)',
+                        'RecordsRange::{with_bounds,next} and the Chain/Flatten adaptors are shells: Verus cannot attach specifications to the provided trait methods Iterator::chain/flatten (one logged R8 map in get_range)',
+                        'RangeEntry::as_fingerprint and Fingerprint ^= are used through uninterpreted functions'],
         'explanation': 'Each storage primitive of the redb-backed reconciliation store returns what the ordered-map definition prescribes: prefix lookup, filtered prefix removal, single put, range bounds.',
     },
     'C13': {
@@ -55,20 +91,22 @@ PROPS = {
         'explanation': 'remove_replica refuses open documents and otherwise removes exactly the rows of the named document from all six per-document tables, leaving every other row unchanged.',
     },
     'C05': {
-        'vx': ['U-bounds'],
+        'vx': ['U-bounds', 'U-policy-filters', 'U-policy-index', 'U-policy-selector', 'U-policy-bykey', 'U-store'],
         'kx': [KX['U-incr32'], KX['U-incr-var']],
-        'assumptions': [A_REDB, A_INCR, 'bytes::Bytes is an abstract byte string (view Seq<u8>): new/to_vec/clone/From<Vec<u8>>/== assumed to preserve the bytes'],
+        'assumptions': [A_REDB, A_INCR, A_BYTES, A_ENTRY,
+                        'RangeExt::next_filter_map / next_try_filter_map (loop with `break <value>`) are modelled in the range shell of U-policy-bykey, not verified'],
         'not_covered': ['QueryIterator::next (offset/limit window, empty skipping after grouping, order of author filter and grouping): Verus rejects its closure parameter patterns and `break <value>`; Kani cannot run redb/Bytes'],
         'explanation': 'Exactness of every range bound used by queries (author/key/prefix on both indexes), index choice, the latest-per-key grouping step and point lookups.',
     },
     'C11': {
-        'vx': ['U-peer'],
+        'vx': ['U-peer', 'U-live-nss', 'U-live-handlers', 'U-live-dial'],
         'kx': [],
         'assumptions': [
             'SystemTime::now / Instant::now: arbitrary values (assume_specification without postcondition)',
             'expected_sync_direction is used through the uninterpreted predicate dir_is_accept in U-peer',
         ],
-        'not_covered': ['liveness / real network timing', 'the two-node interleaving theorem (L-slot) is not proved; only per-function transition and handler contracts'],
-        'explanation': 'Per-function contracts for the per-peer sync slot transition functions and the live actor completion handlers.',
+        'not_covered': ['liveness / real network timing', 'the full two-node interleaving theorem over message histories is not proved; per-function transition and handler contracts plus lemmas over them (simultaneous dial, busy slot refuses, ready after finished, one follow-up) are',
+                        'BTreeMap::entry / Entry::or_default are assumed (lookup-or-default)'],
+        'explanation': 'Exact transition contracts of the per-peer sync slot (PeerState, NamespaceStates) and slot postconditions of the live actor completion handlers, the dial and the accept path, on the real text.',
     },
 }
